@@ -1421,3 +1421,58 @@ func VH_C15_cluster2_periodic_snapshot() {
 	vAssert(step >= 7, "script-completed")
 	vReach("end")
 }
+
+//verif:check C18,C16,C09 sched=coop maxsteps=1500000 onunwind=violation stubs=rt,timers,valuefile,abslog,snapfs onblock=violation reach=clients-started,answers,closed,end desc="the admin client protocol end to end on three real nodes, the state-changing calls: Client.TakeSnapshot against the leader returns the snapshot index over the wire (a second call while nothing changed returns the library's no-updates sentinel, recognisable by equality); Client.TransferLeadership to a named node returns success and that node leads a higher term; the same call sent to the old leader right afterwards is answered with a typed not-leader error whose hint is the new leader or empty" bounds="3 voters, logs of 3 entries + no-op; four client calls in sequence; round-robin goroutine schedule"
+func VH_C18_cluster3_client_admin() {
+	cfgE := vClusterConfig().encode()
+	cfgE.index, cfgE.term = 1, 1
+	e2 := &entry{index: 2, term: 1, typ: entryUpdate, data: vBytes("payload2", 1)}
+	e3 := &entry{index: 3, term: 2, typ: entryUpdate, data: vBytes("payload3", 1)}
+	c := vNewCluster()
+	for id := uint64(1); id <= 3; id++ {
+		c.add(id, []*entry{cfgE, e2, e3}, 3, 1, 2)
+	}
+	L := c.nodes[1]
+	L.state, L.leader = Leader, 1
+	c.wire()
+	c.start(1)
+	var (
+		snap1, snap2           uint64
+		errS1, errS2, errT, errT2 error
+		done                   int
+	)
+	step := 0
+	vSetIdleHook(func() {
+		switch step {
+		case 0:
+			vAssert(L.state == Leader && L.commitIndex == 4, "A-settled")
+			cl := &Client{vAddr(1), c.dial[1]}
+			go func() {
+				snap1, errS1 = cl.TakeSnapshot(0)
+				snap2, errS2 = cl.TakeSnapshot(0)
+				errT = cl.TransferLeadership(2, time.Second)
+				errT2 = cl.TransferLeadership(3, time.Second)
+				done++
+			}()
+			vReach("clients-started")
+		case 1:
+			vAssert(done == 1, "A-every-client-call-returned")
+			vReach("answers")
+			vAssert(errS1 == nil && snap1 == 4 && L.snaps.index == 4, "A-take-snapshot-returns-the-snapshot-index")
+			vAssert(errS2 == ErrNoUpdates && snap2 == 0, "A-second-snapshot-reports-no-updates-by-equality")
+			vAssert(errT == nil, "A-transfer-reports-success")
+			N := c.nodes[2]
+			vAssert(N.state == Leader && N.term > 3 && L.state == Follower && L.leader == 2, "A-named-target-leads-a-higher-term")
+			nle, ok := errT2.(NotLeaderError)
+			// (at that instant the old leader may not have heard from its successor yet: the hint is the successor or empty)
+			vAssert(ok && !nle.Lost, "A-old-leader-answers-with-a-typed-not-leader-error")
+			vAssert(ok && (nle.Leader.ID == 0 || (nle.Leader.ID == 2 && nle.Leader.Addr == vAddr(2))), "A-leader-hint-is-the-successor-or-empty")
+			c.closeAll()
+		}
+		step++
+	})
+	L.stateLoop()
+	vReach("closed")
+	vAssert(step >= 2, "script-completed")
+	vReach("end")
+}
